@@ -28,6 +28,7 @@ func newBrokerPublishQOS0Transaction(ctx context.Context, h *handler1, msgID uin
 			tLog.Debug("Deleted.")
 		},
 	)
+	t.SetSuspended(t.clientAsleep)
 	return t
 }
 
